@@ -339,6 +339,8 @@ func runC06(r *Run) {
 		}
 		r.Nontrivial(src)
 	}
+	// the same Callable invoked again: lazy operands run once PER EVALUATION, on every back end
+	judgeReinvocations(r, vars)
 	// operand ORDER in every operand position: tr(k) calls numbered in source order must be traced as 1, 2, 3, ...
 	for _, c := range []struct {
 		src  string
